@@ -160,6 +160,9 @@ BODY_FORMS = [
     "x = %s", "%s", "x = y = %s", "o.a = %s", "d['k'] = %s", "(z := %s)", "x: object = %s", "x = 1\n    x *= %s",
     "lst = [1]\n    lst[0:1] = [%s]", "x, y = %s, %s", "M(7) if %s else M(8)", "f = lambda: %s", "def g():\n        return %s",
     "pass\n    x = %s", "x = (%s, )[0]",
+    # a declaration in front of the one binding statement; a lone import; two stores
+    "global gq\n    gq = %s", "w: int\n    w = %s", "import math", "from math import pi as pp", "import math\n    x = %s",
+    "x = %s\n    y = %s",
 ]
 
 
@@ -167,12 +170,29 @@ def falsy_cases():
     for vi, v in enumerate(FALSY + TRUTHY):
         for fi, form in enumerate(BODY_FORMS):
             body = form.replace("%s", v)
-            for shape in ("ifelse", "ifelifelse", "nested"):
+            for shape in ("ifelse", "ifelifelse", "nested", "classbody", "funcglobal", "nonlocal"):
                 pre = "o = OBJ('o')\nd = BOX('d', {})\n"
-                if shape == "ifelse":
+                if shape == "classbody":
+                    if "global " in body:
+                        continue
+                    b2 = body.replace("\n    ", "\n        ")
+                    src = pre + "class KK:\n    if C(1):\n        %s\n    else:\n        M(2)\n    M(3)\n" % b2
+                elif shape == "funcglobal":
+                    b2 = body.replace("\n    ", "\n        ")
+                    src = pre + ("def FF():\n    global x, y, z, lst, f, g, w, math, pp\n    if C(1):\n        %s\n    else:\n        M(2)\n    M(3)\nFF()\nFF()\n"
+                                 % b2.replace("global gq", "pass").replace("gq", "x"))
+                    if "def g" in body or ": object" in body or "w: int" in body:
+                        continue        # def of a declared-global name: scope trees; annotated globals are illegal
+                elif shape == "nonlocal":
+                    if fi != 0:
+                        continue
+                    src = pre + ("def FF():\n    nv = 1\n    def GG():\n        if C(1):\n            nonlocal nv\n            nv = %s\n        else:\n            M(2)\n"
+                                 "        M(3)\n        return nv\n    return GG(), GG(), nv\nL('r', FF())\n" % v)
+                elif shape == "ifelse":
                     src = pre + "if C(1):\n    %s\nelse:\n    M(2)\nM(3)\n" % body
                 elif shape == "ifelifelse":
-                    src = pre + "if C(1):\n    %s\nelif C(4):\n    %s\nelse:\n    M(2)\nM(3)\n" % (body, body)
+                    src = pre + "if C(1):\n    %s\nelif C(4):\n    %s\nelse:\n    M(2)\nM(3)\n" % (
+                        body, body.replace("global gq", "pass"))
                 else:
                     b2 = body.replace("\n    ", "\n        ")
                     src = pre + "for v in IT(5):\n    if C(1):\n        %s\n    else:\n        M(2)\n        continue\n    M(6)\nM(3)\n" % b2
@@ -238,7 +258,7 @@ def run(report):
         report.absorb(part)
     for part in env.pmap(_falsy_shard, [(i, env.NPROC) for i in range(env.NPROC)]):
         report.absorb(part)
-    report.extra["falsy_body_family"] = {"values": len(FALSY) + len(TRUTHY), "body_forms": len(BODY_FORMS), "shapes": 3}
+    report.extra["falsy_body_family"] = {"values": len(FALSY) + len(TRUTHY), "body_forms": len(BODY_FORMS), "shapes": 6}
     report.extra["exhaustive_family"] = {"bound_n": bound, "skeleton_counts": sizes,
                                          "schedules": list(SCHEDS)}
     report.exhaustive = True
